@@ -3,6 +3,7 @@
 package groups
 
 import (
+	"math/big"
 	"go.dedis.ch/kyber/v4/group/edwards25519"
 	"go.dedis.ch/kyber/v4/group/edwards25519vartime"
 	"go.dedis.ch/kyber/v4/group/p256"
@@ -50,6 +51,18 @@ var (
 
 // Extra returns group instances beyond the 20 the library registers: a residue
 // group with a large cofactor built through the public ResidueGroup.SetParams.
+// RFC 3526 group 15: the 3072-bit MODP safe prime (P = 2Q+1); the quadratic residues form a group whose points can hold
+// more than 255 bytes of embedded data (two-byte length field in full use).
+var Res3072P = bigs("0xFFFFFFFFFFFFFFFFC90FDAA22168C234C4C6628B80DC1CD129024E088A67CC74020BBEA63B139B22514A08798E3404DDEF9519B3CD3A431B302B0A6DF25F14374FE1356D6D51C245E485B576625E7EC6F44C42E9A637ED6B0BFF5CB6F406B7EDEE386BFB5A899FA5AE9F24117C4B1FE649286651ECE45B3DC2007CB8A163BF0598DA48361C55D39A69163FA8FD24CF5F83655D23DCA3AD961C62F356208552BB9ED529077096966D670C354E4ABC9804F1746C08CA18217C32905E462E36CE3BE39E772C180E86039B2783A2EC07A28FB5C55DF06F4C52C9DE2BCBF6955817183995497CEA956AE515D2261898FA051015728E5A8AAAC42DAD33170D04507A33A85521ABDF1CBA64ECFB850458DBEF0A8AEA71575D060C7DB3970F85A6E1E4C7ABF5AE8CDB0933D71E8C94E04A25619DCEE3D2261AD2EE6BF12FFA06D98A0864D87602733EC86A64521F2B18177B200CBBE117577A615D6C770988C0BAD946E208E24FA074E5AB3143DB5BFCE0FD108E4B82D120A93AD2CAFFFFFFFFFFFFFFFF")
+var Res3072Q = new(big.Int).Rsh(Res3072P, 1)
+
+// ExtraLarge returns the 3072-bit residue group (used only where its cost is affordable).
+func ExtraLarge() []*G {
+	rg := new(p256.ResidueGroup)
+	rg.SetParams(Res3072P, Res3072Q, big.NewInt(2), big.NewInt(4))
+	return []*G{{Name: "residue-3072", Group: rg, MulNil: true, Base: true, Pick: true, Embed: true, Family: "residue-3072", Order: Res3072Q, Slow: true}}
+}
+
 func Extra() []*G {
 	rg := new(p256.ResidueGroup)
 	rg.SetParams(ResR84P, ResR84Q, bigs("84"), ResR84G)
